@@ -5,7 +5,7 @@ import os, re, json
 from vlib import *
 import sqlwalk
 
-def run(d, srcs, dialects="all", expect=None, nsh=12, tag=""):
+def run(d, srcs, dialects="all", expect=None, nsh=12, tag="", expect_takes=None, keep_events=False):
     """srcs: [{"id","src"[,"schema"]}]; an id ending in "o" directly after its base id is that program's open-schema twin.
     expect: {id: [column names]} - when given, the statement's result columns must be those (frame rule).
     Returns rejects [{"id","dialect","verdict","detail","rec","trace_file","line"}] and counters."""
@@ -17,6 +17,7 @@ def run(d, srcs, dialects="all", expect=None, nsh=12, tag=""):
             shards[i].append(shards[i + 1].pop(0))
     shards = [s for s in shards if s]
     from concurrent.futures import ThreadPoolExecutor
+    takes_seen = {}
     def one(i):
         ip = os.path.join(d, f"{tag}src{i}.ndjson"); op = os.path.join(d, f"{tag}ast{i}.ndjson")
         write_ndjson(ip, shards[i])
@@ -54,7 +55,12 @@ def run(d, srcs, dialects="all", expect=None, nsh=12, tag=""):
                 # a generated name / an expression text stands for a column the program did not name
                 r["expect"] = [n if re.fullmatch(r"[A-Za-z][A-Za-z0-9_]*", n) else ("" if not re.fullmatch(r"_(?!expr_\d+$)\w+", n) else n) for n in expect[r["id"]]]
                 r["ordered"] = not r["id"].endswith("o")
-            evs += sqlwalk.walk(r)
+            if expect_takes is not None and r["id"] in expect_takes:
+                r["expect_takes"] = expect_takes[r["id"]]
+            w_ = sqlwalk.walk(r)
+            if keep_events:
+                takes_seen[(r["id"], r["dialect"])] = [[e["name"], e["q"]] for e in w_ if e["ev"] == "Take"]
+            evs += w_
         evs.append(sqlwalk.E("Stop"))
         tp = os.path.join(d, f"{tag}walk{i}.ndjson"); write_ndjson(tp, evs)
         out, tinfo = tlc("SqlScopeTrace", "SqlScopeTrace.cfg", env={"TRACE": tp}, workers=1, deque=True, xmx="6g")
@@ -79,4 +85,4 @@ def run(d, srcs, dialects="all", expect=None, nsh=12, tag=""):
                 raise ToolError(f"recorder/monitor mismatch on {pid_} {dialect}: {detail}: {rec.get('sql')}")
             rejects.append({"id": pid_, "dialect": dialect, "verdict": verdict, "detail": detail, "rec": rec,
                             "trace_file": os.path.relpath(tp, ROOT), "line": r[5]})
-    return {"rejects": rejects, "stats": tot, "events": nev, "judged": nq, "skipped": nskip, "states": tstates}
+    return {"takes_seen": takes_seen, "rejects": rejects, "stats": tot, "events": nev, "judged": nq, "skipped": nskip, "states": tstates}
